@@ -14,7 +14,7 @@ Lemma gen_is_hell n p q :
 Proof.
   intros Lp Lq. unfold gen_compute_Hellinger_distance. cbv zeta.
   unfold vsub. rewrite vbin_eqlen by (rewrite !vsqrt_length; congruence). cbn [rbind].
-  first [rewrite sqdiff_vocab | rewrite sqdiff_vocab_swapped].
+  first [rewrite (sqdiff_vocab p q) | rewrite (sqdiff_vocab_swapped p q)].
   replace (2 ^ n)%nat with (length (sqdiff p q))
     by (unfold sqdiff; rewrite map2_length; congruence).
   rewrite for_range_sum. cbn [rbind].
